@@ -455,12 +455,8 @@ bool encode_array::prepare(size_t len)
 	if (_enc) {
 		return false;
 	}
-	size_t old = _d.length();
-	if (!_d.set(old + len)) {
-		return false;
-	}
-	_d.set(old);
-	return true;
+	/* keep content and length, only make room */
+	return mpt_array_reserve(&_d, _d.length() + len, 0) != 0;
 }
 span<const uint8_t> encode_array::data() const
 {
